@@ -311,6 +311,15 @@ class Builder:
                             pr["original_identifier"] = "p[%d]" % pk
                         plist.append(pr)
                     props["EDIF.properties"] = plist
+                if c.get("mixed_meta") and r.random() < 0.5:
+                    # metadata of another format on the same instance (a design read from Verilog, annotated, and on its
+                    # way to EDIF - or the other way round)
+                    props = dict(props or {})
+                    props["VERILOG.Parameters"] = dict((k, r.choice(["4'h8", '"grp0"', "1", "16"]))
+                                                       for k in r.sample(["INIT", "SOFT_HLUTNM", "P0", "p1", "WIDTH"], r.randint(1, 3)))
+                    if r.random() < 0.5:
+                        props["VERILOG.InlineConstraints"] = dict((k, r.choice([None, "1", '"true"']))
+                                                                  for k in r.sample(["keep", "loc", "DONT_TOUCH"], r.randint(1, 2)))
                 i = self.emit({"op": "create_child", "on": d, "name": self.nm("u", d), "ref": t["h"], "props": props})
                 kids.append(("e%d.0" % i, t))
         # free endpoints of this definition
